@@ -91,6 +91,36 @@ def params_phase(chk, th):
             chk.violation("U", "a phase Parameter holding %r: the circuit's matrix differs from exp(i phi) by %.3g (frozen copy vs live: %.3g)"
                           % (phi, np.abs(c.U - ref).max(), np.abs(fz.U - c.U).max()), script={"probe": "large phase", "phi": phi}, sig={"clause": "U", "probe": "large_phase"})
     chk.add_phase("parameter values many turns away from [0, 2 pi)", cases=6)
+    # ONE circuit object read, a parameter moved in its 7th significant digit, read again: the second matrix is that of the new value
+    for kind, x0 in (("phase", 31.67), ("phase", 1.0), ("refl", 0.4), ("loss", 0.25)):
+        par = lw.Parameter(x0)
+        c = lw.Circuit(3)
+        c.bs(0, 1)
+        if kind == "phase":
+            c.ps(1, par)
+        elif kind == "refl":
+            c.bs(1, 2, reflectivity=par)
+        else:
+            c.loss(1, par)
+        c.bs(0, 1); c.bs(1, 2)
+        c.U_full
+        c.U
+        par.set(x0 + 2e-7)
+        chk.count(key="small-step/%s" % kind)
+        again = c.U_full.copy()
+        d = lw.Circuit(3)
+        d.bs(0, 1)
+        if kind == "phase":
+            d.ps(1, x0 + 2e-7)
+        elif kind == "refl":
+            d.bs(1, 2, reflectivity=x0 + 2e-7)
+        else:
+            d.loss(1, x0 + 2e-7)
+        d.bs(0, 1); d.bs(1, 2)
+        if again.shape != d.U_full.shape or np.abs(again - d.U_full).max() > 1e-12:
+            chk.violation("U", "a %s Parameter moved from %r by 2e-7 after the matrix had been read: the matrix read afterwards differs from the one of the new value by %.3g"
+                          % (kind, x0, np.abs(again - d.U_full).max()), script={"probe": "small step", "kind": kind}, sig={"clause": "U", "probe": "small_step"})
+    chk.add_phase("one circuit object across a parameter step of 2e-7", cases=4)
     tlc.cleanup("C10_params")
 
 
